@@ -195,6 +195,8 @@ def flo_programs(tier):
     #     while W's *status* is started/running (whatever its desire) and end as soon as no status is
     for pt in ((4, 8) if tier != "thorough" else (4, 6, 8)):
         for j in ((1, 2) if tier != "thorough" else (1, 2, 3)):
+            if j + 2 >= pt:
+                continue                  # A and B (told to stop in tick j+1) stop in tick j+2: must be before W's next turn
             for verb in ("stop", "abort", "start"):
                 sched = "inactive" if verb == "start" else "active"
                 A = ["framer A be active first a0"] + chain2("a", "atop", j + 2, {j: ["bid %s W" % verb]},
@@ -205,13 +207,17 @@ def flo_programs(tier):
                 if verb == "start":          # W does get started at its next turn if the run is still going: let it end then
                     W = deep_framer("W", sched, 2, end_after=1)
                     W[0] += " at %r" % (pt * TICK)
+                # the exact controls W's generator must receive in the fault-free run, the sweep's ABORT included
+                expect = {"stop": ["start", "stop", "abort"], "abort": ["start", "abort"], "start": ["stop", "abort"]}[verb]
                 for a_first in (True, False):
                     progs.append(("R6 W period %d ticks (%s); A: bid %s W at tick %d, then stop B + stop me; A %s"
-                                  % (pt, sched, verb, j, "before W" if a_first else "after W"), [A, B, W] if a_first else [W, B, A]))
+                                  % (pt, sched, verb, j, "before W" if a_first else "after W"), [A, B, W] if a_first else [W, B, A],
+                                  {"W": expect}))
     out = []
-    for title, blocks in progs:
+    for item in progs:
+        title, blocks = item[:2]
         text = "house h\n\n" + "\n\n".join("\n".join(b) for b in blocks) + "\n"
-        out.append(("flo", title, text))
+        out.append(("flo", title, text) + tuple(item[2:]))
     return out
 
 
@@ -315,7 +321,7 @@ def run_case(prog, fault=None, interrupt_at=None, dispatch=None):
     a KeyboardInterrupt raised before the generator is resumed.
     Returns (Traced, taskable names in order, framer names, number of crash points)."""
     from mc.flo import real, sked
-    kind, title, body = prog
+    kind, title, body = prog[:3]
     before = None
     if dispatch is not None:
         seen = {"n": 0}
@@ -409,7 +415,7 @@ def split(res, order):
 
 def judge(p, prog, res, order, framers, fault, interrupt_at, label):
     """Evaluate the statement on one run.  fault: None | (n, exc)."""
-    kind, title, body = prog
+    kind, title, body = prog[:3]
     example = "%s | %s" % (title, label)
     replay = dict(program=body if kind == "flo" else dict(taskers=body[0], events=body[1]), title=title, case=label,
                   tick_period=TICK,
@@ -563,10 +569,17 @@ def judge(p, prog, res, order, framers, fault, interrupt_at, label):
 def work(prog):
     core.use_repo()
     p = core.Part()
-    kind, title, body = prog
+    kind, title, body = prog[:3]
     res0, order, framers, npoints = run_case(prog)
     p.evaluations += 1
     judge(p, prog, res0, order, framers, None, None, "fault-free")
+    for name, expect in sorted((prog[3] if len(prog) > 3 else {}).items()):
+        got = [e["control"] for e in res0.trace if isinstance(e, dict) and e["name"] == name]
+        if got != expect and not p.violations:
+            p.violation("controls|sequence-received-by-waiting-tasker", "%s | fault-free" % title,
+                        "%s (period %r) received the controls %r; expected %r: its bid is delivered at its next turn, the run "
+                        "lasts until then, and the sweep sends one ABORT to a tasker that is still scheduled"
+                        % (name, res0.periods.get(name), got, expect), dict(program=body, controls=got, expected=expect))
     if p.violations:
         # the fault-free run already breaks the statement: crash points on top of it would only repeat it
         p.nontrivial(title)
